@@ -344,17 +344,21 @@ Section HB.
   Qed.
 
   (* ---------------------------------------------------------------- the caller's reads *)
-  Lemma ph_mono t s s' l : step c t s = Some (s', l) -> ph s' <= ph s /\ (l = LMainRead -> t = 0 /\ ph s = 5 \/ ph s <> 5 /\ ph s' < ph s).
+  Lemma ph_mono t s s' l :
+    InvC s -> step c t s = Some (s', l) ->
+    ph s' <= ph s /\ (l = LMainRead -> t = 0 /\ exists pc, mainpc s = MSort :: pc /\ mainpc s' = pc).
   Proof.
-    intros H. unfold step in H. destruct (panicked s); [discriminate|]. unfold ph.
+    intros I H. unfold step in H. destruct (panicked s); [discriminate|]. unfold ph.
     destruct t as [|[|[|k]]].
-    - unfold step_main in H. destruct (mainpc s) as [|a pc] eqn:Em; [discriminate|].
-      destruct a; simpl in H;
+    - unfold step_main in H. pose proof (ic_main c s I) as Im.
+      unfold prog, inner_prog, outer_prog in Im; simpl in Im.
+      destruct (mainpc s) as [|a pc] eqn:Em; [discriminate|].
+      suffix_cases Im; inversion Im; subst a pc; clear Im; simpl in H;
         try (destruct (wg s)); try (destruct (eclosed s)); try (destruct (sclosed s));
         try (destruct (buf s)); try (destruct (closed s)); try (destruct (ebuf s)); try (destruct (sbuf s));
         try discriminate; inversion H; subst; clear H; simpl; rewrite ?Em; simpl;
         try rewrite (ok_outer c Hok); simpl; (split; [lia|]); intros E; try discriminate E.
-      all: destruct (Nat.eq_dec (List.length pc) 4); [left; split; auto; lia|right; lia].
+      all: split; auto; eexists; split; reflexivity.
     - unfold step_prod in H. destruct (pend s) as [|[b|] p].
       + destruct (closed s); [discriminate|]. inversion H; subst; simpl. split; [lia|discriminate].
       + destruct (c_select c || ppolled s).
@@ -422,7 +426,7 @@ Section HB.
     InvC s -> TInv tr s -> WInv tr s -> step c t s = Some (s', l) -> WInv (tr ++ [(t, l)]) s'.
   Proof.
     intros I T W H.
-    destruct (ph_mono t s s' l H) as [Hph Hread].
+    destruct (ph_mono t s s' l I H) as [Hph Hread].
     destruct W as [Wd Wn Wr Ww].
     assert (Hacc_worker : is_acc l = true -> exists k wk, t = wtid k /\ nth_error (ws s) k = Some wk /\ 8 <= ph s).
     { intros Ha. destruct (le_lt_dec 3 t) as [Ht|Ht].
@@ -439,7 +443,7 @@ Section HB.
         destruct (worker_done_shape k0 s s' l H) as (wk0 & Hk0 & Hnd & [Ews|(wk' & Ews & Hl)]).
         * rewrite Ews in Hk.
           apply snoc_split in E as [(-> & -> & E)|(b' & -> & ->)].
-          -- inversion E; subst. unfold wtid in *. assert (k = k0) by lia. subst. congruence.
+          -- inversion E; subst. congruence.
           -- apply in_or_app. left. eapply Wd; eauto.
         * rewrite Ews in Hk. destruct (Nat.eq_dec k k0) as [->|Hne].
           -- rewrite set_nth_same in Hk by (eapply nth_error_lt; eauto). inversion Hk; subst wk'.
@@ -456,49 +460,25 @@ Section HB.
           destruct (t_who _ _ T (wtid k) a ltac:(apply in_or_app; right; now left) (acc_sync _ Ha)) as (k1 & wk1 & Ek & Hk1).
           unfold wtid in Ek. inversion Ek; subst k1.
           rewrite Ews in Hk. rewrite nth_error_app1 in Hk by (eapply nth_error_lt; eauto).
-          eapply Wd; eauto.
+          eapply (Wd k wk Hk Hd); eauto.
     - (* w_noread *)
       intros Hp t0 Hin. apply in_app_or in Hin as [Hin|[E|[]]].
       + apply (Wn ltac:(lia) t0 Hin).
-      + inversion E; subst. destruct (Hread eq_refl) as [[_ E5]|[_ Hlt]]; try lia.
-        (* the MSort step: ph goes from 5 to 4 *)
-        clear - H E5 Hp Hok. unfold step in H. destruct (panicked s); [discriminate|].
-        unfold step_main, ph in *. destruct (mainpc s) as [|a pc] eqn:Em; [discriminate|].
-        destruct a; simpl in H;
-          try (destruct (wg s)); try (destruct (eclosed s)); try (destruct (sclosed s));
-          try (destruct (buf s)); try (destruct (closed s)); try (destruct (ebuf s)); try (destruct (sbuf s));
-          try discriminate; inversion H; subst; simpl in *; lia.
+      + inversion E; subst. destruct (Hread eq_refl) as (_ & pc & Em & Em').
+        pose proof (ic_main c s I) as Im. rewrite Em in Im.
+        unfold ph in Hp. rewrite Em' in Hp. clear Em'.
+        unfold prog, inner_prog, outer_prog in Im; simpl in Im. suffix_cases Im; inversion Im; subst.
+        simpl in Hp. lia.
     - (* w_reader *)
       intros t0 Hin. apply in_app_or in Hin as [Hin|[E|[]]]; auto.
-      inversion E; subst. destruct (le_lt_dec 3 t0) as [Ht|Ht].
-      + exfalso. destruct t0 as [|[|[|k]]]; try lia. unfold step in H. rewrite (ic_np c s I) in H.
-        destruct (worker_step_shape k s s' LMainRead I H) as (wk & _ & [[_ E0]|(wk' & _ & Hl)]); [discriminate|].
-        destruct Hl as [(E0 & _)|[(E0 & _)|[(E0 & _)|(_ & _)]]]; try discriminate.
-        (* a non-sync worker label that is LMainRead: inspect the step *)
-        clear - H. unfold step_worker in H. destruct (nth_error (ws s) k) as [wk0|]; [|discriminate].
-        destruct wk0 as [stt trc tab]; simpl in H. destruct stt as [|pc cur|cur| |]; try discriminate.
-        * destruct (buf s); [destruct (closed s); [|discriminate]|]; inversion H.
-        * destruct pc as [|a pc]; [discriminate|].
-          destruct a as [| | | |[]|[]]; simpl in H; try (destruct (b_fail cur)); try (destruct (mutex s));
-            try discriminate; inversion H.
-        * destruct (eclosed s); [inversion H|]. destruct (List.length (ebuf s) <? c_ecap c); [|discriminate]. inversion H.
-        * destruct (wg s); inversion H.
-      + destruct t0 as [|[|[|?]]]; try lia; auto; exfalso; unfold step in H; rewrite (ic_np c s I) in H.
-        * unfold step_prod in H. destruct (pend s) as [|[b|] p].
-          -- destruct (closed s); [discriminate|]. inversion H.
-          -- destruct (c_select c || ppolled s).
-             ++ destruct (List.length (buf s) <? c_ccap c); [|discriminate]. inversion H.
-             ++ destruct (cancelled s); inversion H.
-          -- destruct (sclosed s); [inversion H|]. destruct (List.length (sbuf s) <? 1); [|discriminate]. inversion H.
-        * unfold step_prod_cancel in H. destruct (pend s) as [|[b|] p]; try discriminate.
-          destruct (c_select c && cancelled s); [|discriminate]. inversion H.
+      inversion E; subst. apply (Hread eq_refl).
     - (* w_wait *)
       intros Hp. destruct (le_lt_dec (ph s) 7) as [Hp7|Hp8].
       + (* already past Wait *)
         destruct (Ww Hp7) as (tr1 & tr2 & -> & Hno & Hdone & Hnr).
         exists tr1, (tr2 ++ [(t, l)]). split; [now rewrite <- app_assoc|]. split; [|split]; auto.
         intros t0 a Hin. apply in_app_or in Hin as [Hin|[E|[]]]; eauto. inversion E; subst.
-        destruct (is_acc a) eqn:Ha; auto. destruct (Hacc_worker Ha) as (? & ? & _ & _ & ?). lia.
+        destruct (is_acc a) eqn:Ha; auto. destruct (Hacc_worker eq_refl) as (? & ? & _ & _ & ?). lia.
       + (* this is the Wait step *)
         assert (El : t = 0 /\ l = LWait /\ wg s = 0 /\ ws s' = ws s).
         { clear - H Hp Hp8 Hok I. unfold step in H. rewrite (ic_np c s I) in H.
@@ -506,8 +486,11 @@ Section HB.
           - unfold step_main, ph in *. destruct (mainpc s) as [|a pc] eqn:Em; [discriminate|].
             pose proof (ic_main c s I) as Im. rewrite Em in Im.
             unfold prog, inner_prog, outer_prog in Im; simpl in Im. suffix_cases Im; inversion Im; subst;
-              simpl in *; try lia.
-            destruct (wg s); [|discriminate]. inversion H; subst. auto.
+              simpl in H;
+              try (destruct (wg s) eqn:Eg); try (destruct (eclosed s)); try (destruct (sclosed s));
+              try (destruct (buf s)); try (destruct (closed s)); try (destruct (ebuf s)); try (destruct (sbuf s));
+              try discriminate; inversion H; subst; simpl in *; try rewrite (ok_outer c Hok) in *; simpl in *;
+              try lia; auto.
           - exfalso. unfold step_prod, ph in *. destruct (pend s) as [|[b|] p].
             + destruct (closed s); [discriminate|]. inversion H; subst; simpl in *. lia.
             + destruct (c_select c || ppolled s).
@@ -518,7 +501,6 @@ Section HB.
           - exfalso. unfold step_prod_cancel, ph in *. destruct (pend s) as [|[b|] p]; try discriminate.
             destruct (c_select c && cancelled s); [|discriminate]. inversion H; subst; simpl in *. lia.
           - exfalso. assert (Hs : step c (wtid k) s = Some (s', l)) by (unfold step, wtid; rewrite (ic_np c s I); exact H).
-            destruct (ph_mono _ _ _ _ Hs) as [_ _].
             unfold step_worker, ph in *. destruct (nth_error (ws s) k) as [wk|]; [|discriminate].
             destruct wk as [stt trc tab]; simpl in H. destruct stt as [|pc cur|cur| |]; try discriminate.
             + destruct (buf s); [destruct (closed s); [|discriminate]|]; inversion H; subst; simpl in *; lia.
